@@ -129,6 +129,10 @@ func runC20(args []string) error {
 	}
 	// ---- EBCOT T1: all 64 styles, orientations, block shapes
 	nt1 := 0
+	refArea, refEvery := 36, 7
+	if f.exh >= 2 {
+		refArea, refEvery = 100, 2
+	}
 	t1case := func(w, h, orient, style, bits int, cls string) {
 		scn++
 		t.Reset(scn)
@@ -169,6 +173,8 @@ func runC20(args []string) error {
 		var out []int32
 		es := ""
 		npass := 0
+		code := []byte{}
+		rates := []int{}
 		if mbp >= 0 {
 			numPasses := 3*(mbp+1) - 2
 			pan, site, class := protect(func() {
@@ -184,6 +190,7 @@ func runC20(args []string) error {
 				for i, p := range passes {
 					lens[i] = p.Rate
 				}
+				code, rates = append(code, bytes...), lens
 				dec := t1.NewT1Decoder(w, h, style)
 				dec.SetOrientation(orient)
 				if err := dec.DecodeLayeredWithMode(bytes, lens, mbp, 0, style&4 != 0, style&2 != 0); err != nil {
@@ -204,7 +211,10 @@ func runC20(args []string) error {
 		if out == nil {
 			out = []int32{}
 		}
-		t.Event("t1", "w", w, "h", h, "orient", orient, "style", style, "bits", bits, "cls", cls, "passes", npass, "src", data, "out", out, "err", es)
+		// ref: the encoder's bytes are also decoded by the T.800 Annex D reference decoder of spec/T1.tla (small blocks: TLC time)
+		ref := w*h <= refArea && mbp < 10 && nt1%refEvery == 0
+		t.Event("t1", "w", w, "h", h, "orient", orient, "style", style, "bits", bits, "cls", cls, "passes", npass, "src", data, "out", out, "err", es,
+			"ref", ref, "code", code, "rates", rates)
 		nt1++
 	}
 	shapes := [][2]int{{1, 1}, {2, 2}, {3, 3}, {4, 4}, {5, 7}, {8, 8}, {1, 9}, {9, 1}, {4, 5}, {7, 6}, {16, 16}, {13, 3}, {3, 13}, {32, 6}, {6, 32}, {64, 4}, {4, 64}, {33, 31}}
